@@ -17,6 +17,7 @@ func init() {
 			"R2 HandleActive stores time.Now() as last activity, caches the context and arms time.AfterFunc(idleTime, callback); the activity method (HandleRead / HandleWrite) stores time.Now() and resets the timer with idleTime on every path and forwards the message exactly once; " +
 			"R3 every normal path of the callback ends in Reset(idleTime) of the timer FIELD read and nil-tested in the same critical section (not of a copy taken earlier); R4 HandleInactive stops the timer, nils the timer and the cached context on every path and forwards inactive once; " +
 			"R5 the trigger sits in a frame whose deferred closure calls recover() itself and routes to FireChannelException (with C07); R6 every access to the mutable fields is inside the handler's lock (writes under the write lock), and trigger/forwarding calls are outside it. " +
+			"ALSO: the idle-duration field is the constructor's parameter unchanged; the channel is released only after active was delivered; HandlerContext.Trigger's recover frame is part of the route. " +
 			"DOES NOT DECIDE: actual firing times, timer granularity, the idleTime >= 1s policy, time.Timer.Reset races with an expired timer.",
 		Assumptions: []string{"Go timer semantics", "wall-clock elapsed time is only decided as 'the delivery is guarded by the elapsed-time test'"},
 		Run:         runC20,
@@ -547,7 +548,9 @@ func runC20(c *core.Ctx) {
 	}
 	// a routed panic arrives: the pipeline's exception entry point fires on every path
 	c.Rule("R9", "FireChannelException delivers on every path (shared with C03-R4)", 1)
-	importObligations(c, runC03, "R9", func(o *core.Obligation) bool { return o.Rule == "R4" && strings.Contains(o.Key, "fire/FireChannelException") })
+	importObligations(c, runC03, "R9", func(o *core.Obligation) bool {
+		return o.Rule == "R4" && strings.Contains(o.Key, "fire/FireChannelException")
+	})
 	// "never after inactive" presupposes the lifecycle order: the channel is handed out (and can be closed) only
 	// after the active event, which arms the timers, has been delivered
 	c.Rule("R7", "the channel is released to its creator only after the active event was delivered (shared with C05-R4)", 1)
